@@ -115,6 +115,12 @@ def explore(prog, alphabet, depth, on_run, watch=(), back_alphabet=None, canon=N
                     rr = real.run(br.houses, tick=prog.get("tick", 0.125), horizon=len(h2),
                                   env_front=conform.env_fn_real(envf), env_back=conform.env_fn_real(envb),
                                   watch=watch)
+                    if rr.outcome == "watchdog":     # machine stall or genuine hang? rebuild and retry once, 12x limit
+                        br = real.build_text(text)
+                        if br.ok:
+                            rr = real.run(br.houses, tick=prog.get("tick", 0.125), horizon=len(h2),
+                                          env_front=conform.env_fn_real(envf), env_back=conform.env_fn_real(envb),
+                                          watch=watch, limit=240.0)
                     runs += 1
                     transitions += 1
                     stop = on_run(prog, envf, envb, rr, text, br)
